@@ -125,6 +125,10 @@ pub fn ob_i54_narrow(a: i8, b: i16, c: i32, v: i64) -> Ob {
 
 /// Ordering and equality agree with the underlying integers.
 pub fn ob_u53_order(a: u64, b: u64) -> Ob {
+    if let Ok(x) = U53::try_from(a) {
+        ensure!(x.partial_cmp(&b) == Some(a.cmp(&b)), "U53 PartialOrd<u64> agrees with u64 for every u64");
+        ensure!((x == b) == (a == b), "U53 PartialEq<u64> agrees with u64 for every u64");
+    }
     if let (Ok(x), Ok(y)) = (U53::try_from(a), U53::try_from(b)) {
         ensure!(x.cmp(&y) == a.cmp(&b), "U53 Ord agrees with u64");
         ensure!(x.partial_cmp(&y) == Some(a.cmp(&b)), "U53 PartialOrd agrees with u64");
@@ -135,6 +139,11 @@ pub fn ob_u53_order(a: u64, b: u64) -> Ob {
 }
 
 pub fn ob_i54_order(a: i64, b: i64) -> Ob {
+    if let Ok(x) = I54::try_from(a) {
+        // the wide operand is arbitrary: also values no I54 can hold
+        ensure!(x.partial_cmp(&b) == Some(a.cmp(&b)), "I54 PartialOrd<i64> agrees with i64 for every i64");
+        ensure!((x == b) == (a == b), "I54 PartialEq<i64> agrees with i64 for every i64");
+    }
     if let (Ok(x), Ok(y)) = (I54::try_from(a), I54::try_from(b)) {
         ensure!(x.cmp(&y) == a.cmp(&b), "I54 Ord agrees with i64");
         ensure!(x.partial_cmp(&y) == Some(a.cmp(&b)), "I54 PartialOrd agrees with i64");
